@@ -156,9 +156,15 @@ def run(rep, tier, seed, replay=None):
         'abs_child_block (Model/BlockAbs.v: the translated kernel Gen/AbsPosGen.v + 20 lines of hand glue for the query inputs and the stored '
         'layout) and for the old simple one; compute_root_layout glue Model/BlockRoot.v (C04_block_layout_pass); the whole instance is tied '
         'to TaffyTree::compute_layout_with_measure bit for bit by the whole-tree correspondence `vh blocktree cases` (exact-key hook)',
-        'still covered by the implementation-side oracle only: flex base sizes, line breaking, cross axis, baselines; grid placement and '
-        'step 11.5 (a premise of C04_grid_track_sizing_partial) -- for flex / grid containers `Homogeneous` is a premise of C04_engine '
-        '(false for flex in the known-finding class); the real lossy cache key (is_roughly_equal: refuted) and pixel rounding (refuted)',
+        'whole FLEX containers (wave 6): Model/FlexAlg.v flex_alg = ALL of compute_flexbox_layout as a resumption (hand model + translated '
+        'tables / pipeline / absolute kernel), tied event by event and bit for bit by `vh flexalg cases` (re-run here, payload included); '
+        'Model/FlexAlgT.v flex_alg_t is flex_alg with the one absolute constant (the floor 1.0 of the scaled shrink factor) as a parameter '
+        '(flex_alg_t one = flex_alg by reflexivity: C04_flex_floor_form); the block + flex engine Model/BlockFlexK.v (dispatch no children -> '
+        'leaf / display:flex -> flex / else block, compute_leaf_layout on the CoreStyle part, exact-key memo) is a hand composition of the '
+        'three tied algorithms -- its dispatch and memo are those of the engine skeleton (C01 event-level tie); no whole-tree K of its own',
+        'still covered by the implementation-side oracle only: grid placement and step 11.5 (a premise of C04_grid_track_sizing_partial) -- '
+        'for grid containers `Homogeneous` is a premise of C04_engine; flex containers in the known-finding class (refuted: '
+        'C04_flex_algorithm_homogeneous_refuted); the real lossy cache key (is_roughly_equal: refuted) and pixel rounding (refuted)',
         'classification of oracle mismatches into the two known findings is decided on the style tree (over-approximation, rate-limited)']
     res, changed = proof_stage(rep, 'C04', extra_trusted=trusted)
     if not res['compiled'] and 'Error' not in res.get('output', ''):
@@ -208,6 +214,11 @@ def run(rep, tier, seed, replay=None):
         # ---- whole-tree tie of the block engine instance the C04_block_engine_real_* / C04_block_layout_pass theorems are about
         from . import _blocktree
         _blocktree.tree_k(rep, 'C04', binp, kseed, 3000 if big else 300)
+        # ---- the flex resumption the C04_flex_algorithm_* / C04_blockflex_engine_* theorems are about: event by event, bit for bit
+        from . import _flexalg as FA
+        rep.cov.setdefault('samples', [])
+        FA.flexalg_k(rep, 'C04', binp, (kseed + 404) & 0x7fffffff, 1500 if big else 300, payload_is_broken=True)
+        samples.extend(rep.cov.get('samples', []))
 
     # ---- S: the property on the implementation
     n = 2000000 if big else 150000
@@ -287,6 +298,9 @@ def run(rep, tier, seed, replay=None):
     wv = dict((int(a), (float(b), float(c))) for a, b, c in re.findall(r'WITNESS (\d) k=\S+ container_width orig=(\S+) scaled=(\S+)', wout))
     expect = {0: (0.5, 0.0), 1: (16.0, 16.0)}
     rep.cov['known_finding_witnesses']['model_values'] = {str(k): v for k, v in expect.items()}
+    # witness 0 is also the witness of the whole-resumption / whole-tree refutations: C04_flex_algorithm_witness_values (flex_alg: widths 1/2
+    # and 0) and C04_blockflex_engine_refuted (engine: 1/2 and 0; 2 with the floor scaled by k = 4) predict the same implementation values
+    rep.cov['known_finding_witnesses']['also_predicted_by'] = ['C04_flex_algorithm_witness_values', 'C04_blockflex_engine_refuted']
     for c, ev in expect.items():
         if c in wv and wv[c] != ev:
             rep.add_broken('correspondence', 'flex intrinsic witness %d: model values vs implementation' % c,
@@ -359,6 +373,12 @@ def run(rep, tier, seed, replay=None):
     samples.append({'theorem': 'C04_block_engine_instance : forall k, 0 < k -> forall f t t\' i i\', trel (bnode_rel k) (bin_rel k) (bout_rel k) '
                                '(blay_rel k) t t\' -> bin_rel k i i\' -> oprel (res_rel ..) (bl_memo block_pre abs_child_simple f t i) '
                                '(bl_memo block_pre abs_child_simple f t\' i\')'})
+    samples.append({'theorem': 'C04_flex_algorithm_floor_as_length : forall k tau tau\', 0 < k -> sc k tau tau\' -> gtb tau zero = true -> AlgoRel '
+                               '(fstyle_rel k) (fin_rel k) (output_rel k) (flay_rel k) (flex_alg_t tau) (flex_alg_t tau\') -- all of '
+                               'compute_flexbox_layout, every query / stored layout / result; C04_flex_algorithm_homogeneous_partial : .. -> '
+                               'flex_main_not_intrinsic s i = true -> AlgRel .. (flex_alg s st i) (flex_alg s\' st\' i\'); '
+                               'C04_blockflex_engine_partial : .. trel t t\' -> fin_rel k i i\' -> bf_memo_t (Fin k) f t\' i\' = bf_memo f t\' i\' -> '
+                               'oprel res_rel (bf_memo f t i) (bf_memo f t\' i\')'})
     samples.append({'theorem': 'C04_grid_maximise_threshold : forall k inner a ts, 0 < k -> tracks_rel k (maximise_tracks_t (Fin '
                                '(DISTRIBUTE_THRESHOLD_Q / k)) inner a ts) (maximise_tracks (opt_scale k inner) (gavail_scale k a) (map (track_scale k) ts))'})
     samples.append({'theorem': 'C04_flex_intrinsic_refuted : exists k cc fb ifb g s, 0 < k /\\ finite .. /\\ ~ sc k (item_target_size cc fb ifb g s) '
